@@ -112,6 +112,27 @@ def handshake(chk, prog):
                 mm = m == ("lit", GUID)
                 ok = kk and mm
                 why = f"concat({panics.short_desc(k)}, {panics.short_desc(m)})"
+            elif not fb and inner[0] == "call" and core.re.search(r"String::(new|with_capacity)$", inner[1]):
+                # built in place: String::new / with_capacity, then push_str(key), push_str(GUID) and nothing else
+                hash_blk = acc[2][0][3] if len(acc[2][0]) > 3 else None
+                from ..fmt import _deref_chain
+                sl = _deref_chain(b, core.op_local(b.term(hash_blk)["args"][0])) if hash_blk is not None else None
+                edits = []
+                for b2, t2 in b.calls():
+                    tys = t2.get("arg_tys") or []
+                    if tys and tys[0].startswith("&mut std::string::String") and _deref_chain(b, core.op_local(t2["args"][0])) == sl:
+                        edits.append((b2, t2))
+                edits.sort(key=lambda x: sum(1 for y in edits if b.dominates(y[0], x[0])))
+                names = [t2["callee"].rsplit("::", 1)[-1] for _, t2 in edits]
+                if names == ["push_str", "push_str"] and all(b.dominates(b2, hash_blk) for b2, _ in edits):
+                    k = core.describe(prog, b, edits[0][1]["args"][1])
+                    m = core.describe(prog, b, edits[1][1]["args"][1])
+                    kk = desc_contains(k, lambda y: y[0] == "call" and len(y) > 3 and y[3] in keyget)
+                    mm = m == ("lit", GUID)
+                    ok = kk and mm
+                    why = f"push_str({panics.short_desc(k)}); push_str({panics.short_desc(m)})"
+                else:
+                    why = f"string edited by {names}"
         chk.ob("R2.handshake", fn, "Sec-WebSocket-Accept = base64(sha1(key + GUID))", ok, f"accept value is {why}")
     magic = core.const_value(prog, "humphrey_ws::MAGIC_STRING")
     chk.ob("R2.handshake", "humphrey_ws::MAGIC_STRING", "GUID equals RFC 6455 §1.3", magic == ("lit", GUID), f"{magic}")
